@@ -87,7 +87,7 @@ DOPS = [
     DOp('sd_rem_assign', 'scalar', 'vf::rem_assign(n, D)', 'rem', 'thorough'),
     DOp('sd_value', 'scalar', 'D.value()', 'value'),
     DOp('vd_quot', 'vector', 'div(n, D).quot', 'quot'),
-    DOp('vd_rem', 'vector', 'div(n, D).rem', 'rem'),
+    DOp('vd_rem', 'vector', 'div(n, D).rem', 'rem', 'thorough'),
     DOp('vd_op_quot', 'vector', 'n / D', 'quot', 'thorough'),
     DOp('vd_op_rem', 'vector', 'n % D', 'rem', 'thorough'),
     DOp('vd_quot_assign', 'vector', 'vf::div_assign(n, D)', 'quot', 'thorough'),
